@@ -280,8 +280,9 @@ func loopDoesEach(fn *ssa.Function, il *an.IndexLoop, pred func(in ssa.Instructi
 }
 
 func valueIn(v ssa.Value, set []ssa.Value) bool {
+	rv := an.Resolve(an.Strip(v))
 	for _, s := range set {
-		if an.SameValue(v, s) {
+		if an.SameValue(v, s) || an.SameValue(rv, s) {
 			return true
 		}
 	}
